@@ -27,6 +27,9 @@ type Inflater struct {
 
 func NewInflater(takeover bool) *Inflater { return &Inflater{Takeover: takeover} }
 
+// ErrAfterFinal: data after a BFINAL=1 block (malformed for permessage-deflate).
+var ErrAfterFinal = errors.New("ref: data after a BFINAL=1 DEFLATE block")
+
 // ErrTooBig is returned when the output would exceed max.
 var ErrTooBig = errors.New("ref: inflated size exceeds bound")
 
@@ -40,15 +43,19 @@ func (in *Inflater) Message(raw []byte, max int) ([]byte, error) {
 	br := bytes.NewReader(data)
 	var out []byte
 	hist := in.hist
-	for {
+	for seg := 0; ; seg++ {
 		fr := flate.NewReaderDict(br, hist)
 		chunk, err := readAllMax(fr, max-len(out))
 		out = append(out, chunk...)
 		if err != nil {
 			return out, err
 		}
-		// A BFINAL=1 block ended this DEFLATE stream (RFC 7692 §7.2.3.4); what
-		// follows continues with the same window.
+		// A BFINAL=1 block ended the DEFLATE stream. RFC 7692 section 7.2.3.4 allows
+		// exactly that at the end of a message (followed by the 0x00 octet);
+		// anything after it that still produces data is not a DEFLATE stream.
+		if seg > 0 && len(chunk) > 0 {
+			return out, ErrAfterFinal
+		}
 		if br.Len() == 0 {
 			break
 		}
@@ -62,6 +69,28 @@ func (in *Inflater) Message(raw []byte, max int) ([]byte, error) {
 		in.hist = tail(append(in.hist, out...), window)
 	}
 	return out, nil
+}
+
+// PrefixOK reports whether raw could be the beginning of a well-formed
+// compressed message: inflating it runs out of input rather than hitting
+// corrupt data.
+func (in *Inflater) PrefixOK(raw []byte) bool {
+	br := bytes.NewReader(raw)
+	hist := in.hist
+	for seg := 0; ; seg++ {
+		fr := flate.NewReaderDict(br, hist)
+		chunk, err := readAllMax(fr, 1<<28)
+		if seg > 0 && len(chunk) > 0 {
+			return false
+		}
+		if err != nil {
+			return errors.Is(err, io.ErrUnexpectedEOF)
+		}
+		if br.Len() == 0 {
+			return true
+		}
+		hist = tail(append(append([]byte(nil), hist...), chunk...), window)
+	}
 }
 
 func tail(b []byte, n int) []byte {
